@@ -11,7 +11,7 @@ open W2c2Verif Model Model.Inst Model.InitMem
 /-- the state `Instantiate` hands to the start function is the same in every data segment mode -/
 theorem instantiate_data_mode_independent (m1 m2 : Mode) (d : ModDesc) (r : Resolver) (w : World) :
     initAllE m1 d r w = initAllE m2 d r w := by
-  rw [C06Init.initAllE_eq, C06Init.initAllE_eq]
+  rw [initAllE_eq, initAllE_eq]
 
 /-- … because the emitted InitMemories of any two modes do the same to a fresh instance -/
 theorem initmemories_data_mode_independent (m1 m2 : Mode) (d : ModDesc) (s : St) (hs : s.2.mems = []) :
